@@ -3,7 +3,7 @@
    call site of the code, each recording an event); "never handed to the C library directly" is a
    fact about the sources and the binary: the inventory regenerated from the AST of every source on
    this run (Bridge_inventory) and the trace equality under a tagging / arena allocator. *)
-From CB Require Import Word HHeap HItems HOps HRef_proofs HRead_proofs Bridge_inventory.
+From CB Require Import Word HHeap HItems HOps HRef_proofs HRead_proofs Bridge_inventory HHist2_proofs.
 From CBGen Require Import Gen_inventory.
 Local Open Scope N_scope.
 
@@ -33,3 +33,12 @@ Print Assumptions C13_size_no_requests.
 (* the streaming decoder and the low-level encoders are pure functions of their arguments in model P
    (PStream.stream_decode, PEnc.encode): they have no allocator to call; the request counter of the
    dec1 / enc streams checks the same of the compiled code. *)
+
+(* cbor_describe walks the item exactly as the abstraction function does: it stores nothing,
+   requests nothing from the allocator and frees nothing *)
+Theorem C13_describe_readonly : forall fuel a w u w',
+  describe_walk fuel a w = Ret u w' ->
+  heap w' = heap w /\ next w' = next w /\ nreq w' = nreq w /\ trace w' = trace w /\
+  (exists reads, alog w' = reads ++ alog w /\ Forall (fun x => exists b, x = AccR b) reads).
+Proof. exact describe_walk_readonly. Qed.
+Print Assumptions C13_describe_readonly.
